@@ -10,6 +10,7 @@ A *case* is a jsonable dict describing one call of `draw()`:
   old API  style 'block'|'kitty'|'iterm2', ident, method 'lines'|'whole'|None, fmt (h_align, pad_width,
            v_align, pad_height), repeat, cached, check_size, scroll, src 'pil'|'file', dyn (dynamic size),
            cell (pixel size of a cell), compress
+  C07      buffering 'none'|'full'|'line' (delivery discipline of the virtual stdout, see world.VStdout)
 
 `execute(case, plan, on_frame)` runs the real `draw()` against a VStdout/VTerm/VTty world and returns a
 `Run`; `expected(case)` is the reference (geometry of the padded region and the documented validation
@@ -219,7 +220,8 @@ def execute(case, plan=None, on_frame=None, prepare=None):
     cols, rows = case["term"]
     ident = case.get("ident", "other")
     term = make_term(cols, rows, ident, case["row0"])
-    stdout = world.VStdout(term=term, isatty=case.get("isatty", True), plan=None)
+    stdout = world.VStdout(term=term, isatty=case.get("isatty", True), plan=None,
+                           buffering=case.get("buffering", "none"))
     clock = Clock(stdout)
     tty = world.setup(ident, cols, rows, cell=tuple(case.get("cell") or CELL), stdout=stdout, clock=clock)
     run = Run()
@@ -285,10 +287,7 @@ def execute(case, plan=None, on_frame=None, prepare=None):
             clock.on_sleep = None
             stdout.plan = None
         # what a real buffered stream still holds is written out eventually
-        if stdout._buf:
-            b, stdout._buf = stdout._buf, []
-            for s in b:
-                stdout._deliver(s)
+        stdout._handover()
         run.attrs_after = tty.attrs
         run.state_after = run.state()
     finally:
